@@ -222,6 +222,10 @@ static int E_n;
 static int ref_outcome;
 static const char *ref_reason;  /* why the reference expects a rejection */
 static int ref_alt_invalid_at;  /* entry index at which a rejection is accepted as well (-1 none) */
+static int ref_overlimit_from;  /* entry index of the first reached element whose name is longer than the limit (-1 none): "documents
+                                   that exceed a limit are rejected" - from that element on INVALID_XML is a correct answer at any point,
+                                   whether the parser notices the name when it reads the declaration or only when it has to search for
+                                   the closing tag */
 static int ref_loose_from;      /* entries from this index on are not compared (unclosed element descended) */
 
 static int ref_visit(const struct tcase *tc, int v, int level) {
@@ -235,6 +239,7 @@ static int ref_visit(const struct tcase *tc, int v, int level) {
     e->node = v;
     e->level = level;
     e->body = 0;
+    if (tc->name_len[v] > 256 && ref_overlimit_from < 0) ref_overlimit_from = E_n - 1;
     int a = tc->act[v];
     if (a == A_ABORT) {
         ref_outcome = O_ABORT;
@@ -435,6 +440,7 @@ static void run_case(const struct tcase *tc, int want_sample) {
     ref_outcome = O_OK;
     ref_reason = NULL;
     ref_alt_invalid_at = -1;
+    ref_overlimit_from = -1;
     ref_loose_from = -1;
     ref_visit(tc, 0, 1);
     /* 3. action sequence in invocation order (independent of the limits) */
@@ -566,7 +572,9 @@ static void run_case(const struct tcase *tc, int want_sample) {
         else if (ref_outcome == O_OK) report(tc, "extra-element", E_n - 1, rc, err, det);
         else report_c(tc, "callback-after-limit", ref_reason, E_n - 1, rc, err, det);
     }
-    if (!n_viol_case) {
+    if (!n_viol_case && rc == AWS_OP_ERR && err == AWS_ERROR_INVALID_XML && ref_overlimit_from >= 0 && L_n >= ref_overlimit_from && L_n <= E_n) {
+        V_COUNT("overlong_name_rejected", 1);
+    } else if (!n_viol_case) {
         int last = L_n - 1; /* the element whose processing was under way when the parse ended */
         switch (ref_outcome) {
             case O_OK:
